@@ -18,6 +18,7 @@ func init() {
 		c03CloseEpilogue(c) // C07.6: both timers are cleared before the close event (C03.3)
 		c07ClearTransport(c)
 		c19WhoClears(c) // C07.7: nobody else cancels the heartbeat timers
+		c19HolderWrites(c, "C07.8")
 		c03AdmittedStates(c, "C07.2b", map[string]bool{"resetPingTimeout$callback/OnClose(ping timeout)": true})
 	})
 }
